@@ -237,7 +237,7 @@ class C17(HsProp):
     props_files = ['C17', 'C17b']
     rule = ('valid and invalid heads x segmentations (whole, every line boundary, every byte of the first line, last bytes, random 2..40 pieces) x WouldBlock before any read/write/flush '
             'x partial write sizes; valid heads completed exactly by the read that trips a guard (65th small read, the read crossing 64 KiB) and one read earlier; endless/oversized heads (1/127/128/200/4096-byte drip, 125+ headers, no terminator); parser assumptions P1-P3 on every prefix (TP); attack-check arithmetic (AC); ReadBuffer<1|4|8|4096> under random read/advance/observe sequences against a plain FIFO (RB)')
-    level_text = 'DoS-guard arithmetic, bounded rounds, write exactness and resumption proved on the machine model for any parser; segmentation invariance under parser hypotheses P1-P2'
+    level_text = 'DoS-guard arithmetic, bounded rounds, write exactness and resumption proved on the machine model for any parser; segmentation invariance under parser hypotheses P1-P2; ReadBuffer (src/buffer.rs) proved to refine the plain FIFO the machine model uses (C17b)'
     level_note = 'Trusted: Coq kernel, Handshake.v, parser hypotheses P1-P3 (tested), correspondence generators'
     def generate(self, tier, rng):
         quick = tier == 'quick'
